@@ -471,6 +471,22 @@ inductive Exn | attributeError | typeError | notRoutable | valueError | other
     changes made before a `raise` persist -/
 abbrev HR := St × Option Exn
 
+/-- `receive_cer`, first part for a known peer: the connection takes the peer's
+    name; election (RFC 6733 5.6.4) against connections this node opened to the
+    same peer — the node with the higher identity closes its own. Returns the
+    state and whether this (inbound) connection lost. -/
+def cerNameAndElect (s : St) (cid : Nat) (cerHost : String) : St × Bool :=
+  let s := match s.conn? cid with
+    | some c => if c.nodeName == "" then s.modConn cid fun c => { c with nodeName := cerHost } else s
+    | none => s
+  -- connections whose *local* origin_host equals the remote name
+  let others := (s.connections.filterMap s.conn?).filter (·.originHost == cerHost)
+  let lost := !others.isEmpty && !(s.cfg.host.toLower > cerHost)
+  let s := if !others.isEmpty && s.cfg.host.toLower > cerHost then
+      others.foldl (fun s o => connClose s o.id true) s
+    else s
+  (s, lost)
+
 /-- `receive_cer`. `none` = raised (e.g. CER without Origin-Host: `None.decode()`). -/
 def receiveCer (s : St) (cid : Nat) (m : AMsg) (info : MsgInfo) : HR :=
   match m.oh with
@@ -484,16 +500,9 @@ def receiveCer (s : St) (cid : Nat) (m : AMsg) (info : MsgInfo) : HR :=
       let r := sendMessage s cid { ans0 with rc := some 3010 } true
       (r.1, if r.2 then none else some .typeError)
     | some _ =>
-      let s := match s.conn? cid with
-        | some c => if c.nodeName == "" then s.modConn cid fun c => { c with nodeName := cerHost } else s
-        | none => s
-      -- election: connections whose *local* origin_host equals the remote name
-      let others := (s.connections.filterMap s.conn?).filter (·.originHost == cerHost)
-      let lost := !others.isEmpty && !(s.cfg.host.toLower > cerHost)
-      let s := if !others.isEmpty && s.cfg.host.toLower > cerHost then
-          others.foldl (fun s o => connClose s o.id true) s
-        else s
-      if lost then
+      let e := cerNameAndElect s cid cerHost
+      let s := e.1
+      if e.2 then
         let s := s.modConn cid fun c => { c with state := .closing }
         let r := sendMessage s cid { ans0 with rc := some 4003 } true
         (r.1, if r.2 then none else some .typeError)
